@@ -1,19 +1,20 @@
 SPECIFICATION Spec
 CONSTANTS
-  MaxAdds = 3
-  Ticks = {1000, 1004, 2000}
+  MaxAdds = 2
+  Ticks = {1000, 2000, 3000}
   MaxLen = 2
   MaxLenI = 1
-  MaxSets = 3
+  MaxSets = 1
   Tols = {10}
-  Kinds = {"float", "text"}
+  Kinds = {"float"}
   Assocs = {"V", "C"}
   Owns = {FALSE}
   PGs = {0}
-  AllowCopy = FALSE
+  AllowCopy = TRUE
   Deviations = {}
 INVARIANT ArraysAligned
 INVARIANT VertexAtDepth
 INVARIANT CellsJoin
 INVARIANT ValuesAttached
+PROPERTY OriginalKept
 CHECK_DEADLOCK FALSE
